@@ -49,7 +49,7 @@ func renewal(r *ev.Run) {
 				}
 				rec := map[string]any{"no_upstream": noUp, "comparison": cm.name, "older_certificate": old}
 				r.Eval(1)
-				r.Guard(c, "renewal", rec, func() {
+				if _, hung := r.GuardWithin(c, "renewal", rec, ev.CaseBudget(), func() {
 					ag := wire.New()
 					defer ag.Close()
 					sock, err := ag.Listen()
@@ -110,7 +110,10 @@ func renewal(r *ev.Run) {
 					}
 					r.Count("renewal states: older certificate over the same key refused, current one signs", 1)
 					r.Nontrivial(fmt.Sprintf("renewal:%v:%s:%s", noUp, cm.name, old))
-				})
+				}); hung {
+					r.Unfinished("renewal")
+					return
+				}
 			}
 		}
 	}
